@@ -25,6 +25,7 @@ var commands = map[string]func(args map[string]string){
 	"callable":  cmdCallable,
 	"workers":   cmdWorkers,
 	"worker":    cmdWorker,
+	"waitcond":  cmdWaitCond,
 	"exclusive": cmdExclusive,
 	"pubsub":    cmdPubSub,
 	"caster":    cmdCaster,
